@@ -1,8 +1,10 @@
+import os as _os, sys as _sys
+_sys.path.insert(0, _os.path.dirname(_os.path.abspath(__file__)))
 import vlib
 
 PROP = dict(
     id="C01",
-    corr=["Model/FsmCorr.vo", "Model/C01Corr.vo", "Model/C03Corr.vo", "Model/C01Validator.vo", "Model/C01Decoder.vo"],
+    corr=["Model/FsmCorr.vo", "Model/C01Corr.vo", "Model/C03Corr.vo", "Model/C01Validator.vo", "Model/C01Decoder.vo", "Model/C20Corr.vo"],
     design_ref="DESIGN.md §6 C01",
     technique="Coq: invoice-checked invariant + validate-before-pay ghost, carried by a ghost-threaded engine rule through all histories with crashes; reflective table check; step-level vm_compute correspondence against the real SwapService/FSM; monitor on observed effect traces",
     level_text="Machine-checked for every state table passing a reflective check (decided on the four generated tables each run), every invoice decoder, every history the environment can produce (requests only create swaps, confirmation callbacks only for a watch registered in the current process, any environment answers, crashes after any effect + restarts from the last durable record): every RebalancePayment pays exactly the invoice of the peer's opening_tx_broadcasted message of the durable record, of a Bitcoin or protocol-7 Liquid swap, whose invoice has amount = claim amount*1000 (mod 2^64), final CLTV <= 504 / 0..29 and whose hash is the bound ClaimPaymentHash, and is preceded in the same action by ValidateTx(both pubkeys, that hash, negotiated on-chain amount, CSV 1008/10080, peer's blinding key, delivered OpeningTxHex) = true; every confirmation watch is for the announced txid/vout; every record persisted in a paying state satisfies the invoice invariant. Non-vacuity: an observed paying history satisfies the predicate, perturbed traces are rejected.",
@@ -31,6 +33,26 @@ def run(ctx):
                describe=lambda c: "a claim payment was made without the invoice / validation / confirmation conditions of C01 (role %s, chain %s)" % (c.get("role"), c.get("chain")))
     run_validators(ctx, 150 if ctx.quick else 3000, 24 if ctx.quick else 120)
     run_decoder(ctx, 150 if ctx.quick else 3000)
+    run_watchers(ctx, 150 if ctx.quick else 3000)
+
+
+def _c20sig(c):
+    # the arithmetic regions of C20's classification (a known region there is the same defect here)
+    import importlib
+    return importlib.import_module("C20").sig(c)
+
+
+def run_watchers(ctx, n):
+    """watcher side: the real RPC / electrum watchers report the opening transaction confirmed only with the required depth on the best chain (the C20 families and monitor)"""
+    for fam in ("conf", "elec"):
+        d = ctx.harness("c20", outdir=ctx.work + "/watch_" + fam, args=["-n", n, "-only", fam])
+        if d is None:
+            continue
+        res = vlib.eval_cases(d)
+        ctx.absorb(res, "watch-" + fam, signature=lambda c: "watcher:" + _c20sig(c),
+                   mismatch_is_violation=False,
+                   describe=lambda c: "watcher %s reported the opening transaction confirmed although the simulated chain does not hold it at the required depth" % c.get("fn"))
+    ctx.rules.append("watcher families (shared with C20): the real BlockchainRpcTxWatcher confirmation loop on simulated chains with reorgs / stale answers / notification lag, and the real lwk electrum watcher over header sequences; monitor: a confirmation report is true of the chain")
 
 
 def run_decoder(ctx, n, outdir=None):
